@@ -147,6 +147,11 @@ def step (line : String) : String :=
   | ["frombytes", size, signed, count, bytes] => match size.toNat?, count.toNat?, parseNats? bytes with
     | some sz, some c, some bs => "ok " ++ listOr "," toString (frombufferInt ⟨sz, signed = "1"⟩ bs c)
     | _, _, _ => "bad-op"
+  | ["coovt", arg, hdr] =>
+    -- `loads(dumps(bqm, vartype_header), vartype=arg)`: arg / hdr are SPIN | BINARY | -
+    let a := if arg = "-" then none else parseVT? arg
+    let h := if hdr = "-" then [] else (parseVT? hdr).toList
+    (match cooLoadVartype a h with | some .spin => "ok SPIN" | some .binary => "ok BINARY" | some _ => "ok ?" | none => "err")
   | ["infoser", t] => match parsePV? t with
     | some v => "ok " ++ showPV (docToPV (serInfo (pvToInfo v)))
     | none => "bad-op"
